@@ -1,6 +1,7 @@
 package hx
 
 import (
+	"context"
 	"errors"
 	"fmt"
 	"strings"
@@ -126,8 +127,16 @@ func TestC03_Mgrx(t *testing.T) {
 			at := rapid.IntRange(0, len(seq)).Draw(t, "finishAt")
 			seq = append(seq[:at:at], append([]string{"finish"}, seq[at:]...)...)
 			finished, gotFinal := false, false
+			var wantBytes uint64
+			var nextBlock int64
 			for _, s := range seq {
 				viaTransport := rapid.Bool().Draw(t, "viaTransport")
+				// blocks keep moving until the local transport has finished, whatever the responder said meanwhile
+				for k := rapid.IntRange(0, 2).Draw(t, "blocksBefore"); k > 0 && !finished; k-- {
+					nextBlock++
+					_, _ = r.report(c, nextBlock, uint64(100+nextBlock), true)
+					wantBytes += uint64(100 + nextBlock)
+				}
 				switch s {
 				case "finish":
 					_ = r.ev().OnChannelCompleted(c.chid, nil)
@@ -147,6 +156,17 @@ func TestC03_Mgrx(t *testing.T) {
 				done := st.Status() == datatransfer.Completed
 				if done != (finished && gotFinal) {
 					mfail(t, log, "C03/completion-rule", "initiator is %s with finished=%v finalComplete=%v", datatransfer.Statuses[st.Status()], finished, gotFinal)
+				}
+				// every block reported while the transfer was running is counted, once
+				got := st.Received()
+				if c.localSender() {
+					got = st.Queued()
+					if st.Sent() != wantBytes {
+						mfail(t, log, "C01/totals", "sent total %d after %d bytes were reported sent (status %s)", st.Sent(), wantBytes, datatransfer.Statuses[st.Status()])
+					}
+				}
+				if got != wantBytes {
+					mfail(t, log, "C01/totals", "transferred total %d after %d bytes of unique blocks were reported (status %s)", got, wantBytes, datatransfer.Statuses[st.Status()])
 				}
 			}
 			sp.Eval()
@@ -396,12 +416,25 @@ func TestC09_Mgrx(t *testing.T) {
 		log = append(log, fmt.Sprintf("ending=%s transportCloseFails=%v cancelSendFails=%v", ending, closeErr, sendFails))
 		sent0, tr0 := r.net.SentLen(), r.tr.Len()
 		cancelViaTransport := rapid.Bool().Draw(t, "cancelViaTransport")
+		// a request-scoped caller context: it ends as soon as the close call has returned,
+		// while the counterparty is still being notified in the background
+		shortCtx := ending == "close" && !sendFails && rapid.Bool().Draw(t, "callerContextEndsAfterCall")
+		if shortCtx {
+			r.net.SetSendDelay(2 * time.Millisecond)
+			log = append(log, "the caller's context is cancelled right after CloseDataTransferChannel returns; sends take 2ms")
+		}
 		start := time.Now()
 		done := make(chan error, 1)
 		go func() {
 			switch ending {
 			case "close":
-				done <- r.mgr.CloseDataTransferChannel(bg(), c.chid)
+				cctx, ccancel := context.WithCancel(context.Background())
+				err := r.mgr.CloseDataTransferChannel(cctx, c.chid)
+				if shortCtx {
+					ccancel()
+				}
+				defer ccancel()
+				done <- err
 			case "close-with-error":
 				done <- r.mgr.(closer).CloseDataTransferChannelWithError(bg(), c.chid, errors.New("monitor gave up"))
 			case "incoming-cancel":
@@ -441,6 +474,7 @@ func TestC09_Mgrx(t *testing.T) {
 			time.Sleep(50 * time.Microsecond)
 		}
 		r.net.SetSendErr(nil)
+		r.net.SetSendDelay(0)
 		r.syncAll()
 		calls := r.tr.Since(tr0)
 		want := datatransfer.Cancelled
@@ -489,6 +523,13 @@ func TestC09_Mgrx(t *testing.T) {
 			}
 			if cancels != 1 {
 				mfail(t, log, "C09/cancel-count", "%d cancel messages for one close", cancels)
+			}
+			if !sendFails {
+				for _, s := range r.net.SentSince(sent0) {
+					if s.Msg.IsCancel() && s.Err != nil {
+						mfail(t, log, "C09/cancel-not-delivered", "the counterparty was not notified: the cancel send ended with %v", s.Err)
+					}
+				}
 			}
 			if countKind(calls, "close", c.chid) != 1 {
 				mfail(t, log, "C09/transport-close", "%d transport close calls", countKind(calls, "close", c.chid))
